@@ -297,7 +297,9 @@ def _int_chunk(values):
     return part
 
 
-DECIMAL_SETTINGS = ("prec6", "round_down", "round_half_up", "basic", "traps_inexact")
+DECIMAL_SETTINGS = ("prec6", "round_down", "round_half_up", "basic", "traps_inexact",
+                    # ... and the process's time zone (a duration is not a time of day)
+                    "tz:IST-5:30", "tz:NPT-5:45", "tz:NST3:30", "tz:EST5EDT")
 
 
 class decimal_setting:                      # pylint: disable=invalid-name
@@ -310,6 +312,13 @@ class decimal_setting:                      # pylint: disable=invalid-name
 
     def __enter__(self):
         import decimal                      # pylint: disable=import-outside-toplevel
+        import os                           # pylint: disable=import-outside-toplevel
+        import time                         # pylint: disable=import-outside-toplevel
+        self.old_tz = None
+        if self.name.startswith("tz:"):
+            self.old_tz = os.environ.get("TZ", "")
+            os.environ["TZ"] = self.name[3:]
+            time.tzset()
         self.manager = decimal.localcontext()
         ctx = self.manager.__enter__()
         if self.name == "prec6":
@@ -325,6 +334,14 @@ class decimal_setting:                      # pylint: disable=invalid-name
         return self
 
     def __exit__(self, *exc):
+        if self.old_tz is not None:
+            import os                       # pylint: disable=import-outside-toplevel
+            import time                     # pylint: disable=import-outside-toplevel
+            if self.old_tz:
+                os.environ["TZ"] = self.old_tz
+            else:
+                os.environ.pop("TZ", None)
+            time.tzset()
         return self.manager.__exit__(*exc)
 
 
